@@ -375,6 +375,7 @@ def run(ctx):
     # remembered name is not
     from .. import roles as _roles_n
     _Rn = _roles_n.get(model)
+    _close_h = handler_for(model, "close")
     for a, h in sorted(name_attrs.items()):
         odd = None
         for p in handler_paths(model, h):
@@ -400,16 +401,16 @@ def run(ctx):
             if present is True and not compared and not refused and a_none is not True:
                 odd = ("a %s naming a %s is carried out without being compared with %s "
                        "although %s is not known to be unset" % (
-                           h, "mailbox" if "mailbox" in a else "nameplate", a, a))
+                           h, "mailbox" if h == _close_h else "nameplate", a, a))
             if present is False and refused and a_none is not True:
                 odd = ("a bare %s is refused although %s (what the connection %s) is not "
-                       "known to be unset" % (h, a, "opened" if "mailbox" in a else "claimed"))
+                       "known to be unset" % (h, a, "opened" if h == _close_h else "claimed"))
         ctx.ob("R17.names", "%s: the None tests that guard the %s name are on %s" % (
-            h, "mailbox" if "mailbox" in a else "nameplate", a), odd is None, "",
+            h, "mailbox" if h == _close_h else "nameplate", a), odd is None, "",
             "" if odd is None else odd + ": `was anything %s?` is decided by something other "
             "than the remembered name (the handle of the mailbox object is cleared when the "
             "mailbox is deleted under the connection, the name is not)" % (
-                "opened" if "mailbox" in a else "claimed"))
+                "opened" if h == _close_h else "claimed"))
         # the id a bare command falls back to
         ops = (_Rn.open_op, _Rn.release_op)
         for p in handler_paths(model, h):
